@@ -2,6 +2,7 @@ import DW.Props.C01
 import DW.Props.C09
 import DW.Props.C18
 import DW.Props.C06
+import DW.Lemmas.Obl
 
 /-!
 # C02 — every accepted item yields compiling impls of exactly the requested traits
@@ -70,4 +71,50 @@ theorem C02_delegation_same_bounds (c : Cfg) (inp : Input) (dw : DeriveWhere) :
     simp only [Bool.and_eq_true] at h
     simp [generateImpl, implPreds_shortcut inp.generics inp.item dw h.1 .partialOrd .ord]
 
+/-- The obligations an impl of trait `t` generated for attribute `dw` may raise. -/
+def Entailed (it : Item) (dw : DeriveWhere) (t : Trait) : Oblig → Bool
+  | .field k i tr =>
+    (tr == t || (t == .partialOrd && tr == .ord) || (t == .ord && tr == .partialOrd)) && it.fieldRelevant t k i
+  | .copySelf => dw.contains .copy || isUnion it
+  | .self_ tr =>
+    (tr == .clone && dw.contains .clone) || (tr == .ord && dw.shortcut && dw.contains .ord) || tr == .zeroize
+
+/-- **The only trait obligations an expansion raises** (for every item, attribute, trait and configuration):
+`FieldType: t` for fields that are *not skipped* for the derived trait `t` — the user's side of C02, "the field types
+support the requested traits" (an `Ord`/`PartialOrd` pair may use each other's method on the same fields); `Self: Copy`
+only next to a `Copy` derived in the same attribute or for a union (whose `Clone` is granted only if it is `Copy`);
+`Self: Clone` only next to a `Clone` derived in the same attribute; `Self: Ord` only when `PartialOrd` delegates under
+`only_custom_bounds` (then both impls carry the same where-clause, `C02_delegation_same_bounds`); `Self: Zeroize` only
+in the `Drop` impl (the documented requirement without `zeroize-on-drop`).  Nothing else: no obligation on a skipped
+field's type, none on an unrelated trait, none on other types. -/
+theorem C02_obligations (c : Cfg) (it : Item) (dw : DeriveWhere) (t : Trait) :
+    ∀ m ∈ (generateBody c it dw t).toList, m.body.oblBad (Entailed it dw t) = false := by
+  apply obl_generateBody
+  · intro x hx t' ht' p hp
+    have hv := Item.indexed_mem it x hx
+    have hmem : p.1 ∈ x.2.relevantIdx t' := by
+      rw [← Data.iterFields_fst]; exact List.mem_map_of_mem hp
+    have heq : x.2.relevantIdx t' = x.2.relevantIdx t := by
+      rcases ht' with rfl | ⟨rfl, rfl⟩ | ⟨rfl, rfl⟩
+      · rfl
+      · exact relevantIdx_uniform x.2 .ord .partialOrd (by simp [cmpTraits]) (by simp [cmpTraits])
+      · exact relevantIdx_uniform x.2 .partialOrd .ord (by simp [cmpTraits]) (by simp [cmpTraits])
+    rw [heq] at hmem
+    have hrel : it.fieldRelevant t x.1 p.1 = true := by simp [Item.fieldRelevant, hv, hmem]
+    rcases ht' with rfl | ⟨rfl, rfl⟩ | ⟨rfl, rfl⟩ <;> simp [Entailed, hrel]
+  · intro h; simp [Entailed, h]
+  · intro h; simp [Entailed, h]
+  · intro h; simp [Entailed, h]
+  · intro h
+    simp only [Bool.and_eq_true] at h
+    simp [Entailed, h.1, h.2]
+  · simp [Entailed]
+
+/-- The traversal flags what it should: `Ord::cmp` on a field inside a `PartialEq` impl, a mention of a skipped field,
+`*self` without `Copy`. -/
+example : (Expr.call (.traitFn .cmp) [.var (.selfField 0 0), .var (.otherField 0 0)]).oblBad
+    (fun o => o == .field 0 0 .partialEq) = true := by decide
+example : (Expr.deref vSelf).oblBad (fun o => o != .copySelf) = true := by decide
+
 end DW
+
